@@ -34,7 +34,7 @@ static char *slurp(const char *path, size_t *len) {
 /* style bits: 1 quoted boundary, 2 upper-case header names, 4 extra part
  * header after Content-Range, 8 no CRLF before the first delimiter,
  * 16 extra part header before Content-Range is omitted (Content-Range first),
- * 32 force multipart even for a single range, 64 a 33-40 KB header field in front of Content-Range in every second part */
+ * 32 force multipart even for a single range, 1024 lower-case header names (as HTTP/2 delivers them), 64 a 33-40 KB header field in front of Content-Range in every second part */
 static int build_response(const char *rstr, const char *B, size_t Blen, int style, const char *boundary_tok, struct resp *rp) {
     /* script tokens cannot hold a blank: '~' in the token stands for a space inside the (quoted) boundary */
     char boundary[400];
@@ -75,14 +75,14 @@ static int build_response(const char *rstr, const char *B, size_t Blen, int styl
     for(int i = 0; i < n; i++)
         if(starts[i] > ends[i] || ends[i] >= Blen) return 0; /* unsatisfiable: caller logs */
     if(n == 1 && !(style & 32)) {
-        k = snprintf(tmp, sizeof(tmp), "Content-Range: bytes %zu-%zu/%zu\r\n\r\n", starts[0], ends[0], Blen);
+        k = snprintf(tmp, sizeof(tmp), "%s: bytes %zu-%zu/%zu\r\n\r\n", (style & 1024) ? "content-range" : "Content-Range", starts[0], ends[0], Blen);
         APPEND(rp->hdr, rp->hdr_len, hcap, tmp, k);
         APPEND(rp->body, rp->body_len, bcap, B + starts[0], ends[0] - starts[0] + 1);
         g_part_ends[g_npart_ends++] = rp->body_len;
         return 1;
     }
-    if(style & 1) k = snprintf(tmp, sizeof(tmp), "%s: multipart/byteranges; boundary=\"%s\"\r\n", (style & 2) ? "CONTENT-TYPE" : "Content-Type", boundary);
-    else k = snprintf(tmp, sizeof(tmp), "%s: multipart/byteranges; boundary=%s\r\n", (style & 2) ? "CONTENT-TYPE" : "Content-Type", boundary);
+    if(style & 1) k = snprintf(tmp, sizeof(tmp), "%s: multipart/byteranges; boundary=\"%s\"\r\n", (style & 2) ? "CONTENT-TYPE" : ((style & 1024) ? "content-type" : "Content-Type"), boundary);
+    else k = snprintf(tmp, sizeof(tmp), "%s: multipart/byteranges; boundary=%s\r\n", (style & 2) ? "CONTENT-TYPE" : ((style & 1024) ? "content-type" : "Content-Type"), boundary);
     APPEND(rp->hdr, rp->hdr_len, hcap, tmp, k);
     APPEND(rp->hdr, rp->hdr_len, hcap, "\r\n", 2);
     for(int i = 0; i < n; i++) {
@@ -90,7 +90,7 @@ static int build_response(const char *rstr, const char *B, size_t Blen, int styl
         k = snprintf(tmp, sizeof(tmp), "--%s\r\n", boundary);
         APPEND(rp->body, rp->body_len, bcap, tmp, k);
         if(!(style & 16)) {
-            k = snprintf(tmp, sizeof(tmp), "%s: application/octet-stream\r\n", (style & 2) ? "CONTENT-TYPE" : "Content-Type");
+            k = snprintf(tmp, sizeof(tmp), "%s: application/octet-stream\r\n", (style & 2) ? "CONTENT-TYPE" : ((style & 1024) ? "content-type" : "Content-Type"));
             APPEND(rp->body, rp->body_len, bcap, tmp, k);
         }
         if((style & 64) && (i % 2 == 1 || n == 1)) {
@@ -103,7 +103,7 @@ static int build_response(const char *rstr, const char *B, size_t Blen, int styl
             APPEND(rp->body, rp->body_len, bcap, pad, o + padn + 2);
             free(pad);
         }
-        k = snprintf(tmp, sizeof(tmp), "%s: bytes %zu-%zu/%zu\r\n", (style & 2) ? "CONTENT-RANGE" : "Content-Range", starts[i], ends[i], Blen);
+        k = snprintf(tmp, sizeof(tmp), "%s: bytes %zu-%zu/%zu\r\n", (style & 2) ? "CONTENT-RANGE" : ((style & 1024) ? "content-range" : "Content-Range"), starts[i], ends[i], Blen);
         APPEND(rp->body, rp->body_len, bcap, tmp, k);
         if(style & 4) {
             k = snprintf(tmp, sizeof(tmp), "X-Part: %d\r\n", i);
